@@ -139,7 +139,7 @@ def run_orient(sc, workdir):
     jnames = ["theta", "phi"] + (["psi"] if sym == "abc" else [])
     rng.shuffle(jnames)
     for nm in jnames[:njit]:
-        pars[nm + "_pd"] = rng.choice([5.0, 15.0, 30.0])
+        pars[nm + "_pd"] = rng.choice([5.0, 15.0, 30.0, 50.0, 70.0])      # wide meshes reach beyond 90 degrees
         pars[nm + "_pd_n"] = rng.choice([2, 3, 4])
         pars[nm + "_pd_type"] = rng.choice(["gaussian", "rectangle", "uniform"])
         pars[nm + "_pd_nsigma"] = rng.choice([2.0, 3.0])
